@@ -212,7 +212,7 @@ func ForType[A, T any](seq Seq[T]) Type[T] {
 
 	for _, f := range seq {
 		ft := f.Type
-		if ft.String() == val.String() && ft.AssignableTo(val) {
+		if ft == val {
 			return f
 		}
 	}
